@@ -58,10 +58,21 @@ def integer(v, num=2):
 
 
 class Freedom:
-    def __init__(self, rng, on=True):
+    def __init__(self, rng, on=True, beyond=False):
         self.rng = rng
         self.on = on
+        self.beyond = beyond      # also use the places the library tolerates although they are not "after the defined components of a sequence"
         self.used = collections.Counter()
+
+    def extras_beyond(self, excl):
+        """unknown elements inside NOT (an explicitly tagged CHOICE) and inside the substrings SEQUENCE OF: tolerated by the library and allowed
+        by Verif.Lenient.MsgL, but not demanded by the property — such encodings are compared with the model only, never judged directly"""
+        if not self.beyond:
+            return []
+        got = self.extras(excl)
+        if got:
+            self.used["beyond-property-extra"] += 1
+        return got
 
     def true_octet(self):
         if self.on and self.rng.random() < 0.6:
@@ -106,7 +117,7 @@ def filter_tree(f, fr: Freedom):
     if k in ("and", "or"):
         return K(2, 0 if k == "and" else 1, [filter_tree(x, fr) for x in f["fs"]])
     if k == "not":
-        return K(2, 2, [filter_tree(f["f"], fr)] + fr.extras([]))
+        return K(2, 2, [filter_tree(f["f"], fr)] + fr.extras_beyond([]))
     if k in ("eq", "ge", "le", "approx"):
         return K(2, {"eq": 3, "ge": 5, "le": 6, "approx": 8}[k], [text(f["a"]), text(f["v"])] + fr.extras([]))
     if k == "present":
@@ -118,7 +129,7 @@ def filter_tree(f, fr: Freedom):
         subs += [P(2, 1, bytes.fromhex(x)) for x in f["any"]]
         if f["f"] is not None:
             subs.append(P(2, 2, bytes.fromhex(f["f"])))
-        subs += fr.extras([0, 1, 2])
+        subs += fr.extras_beyond([0, 1, 2])
         return K(2, 4, [text(f["a"]), K(0, 16, subs)] + fr.extras([]))
     if k == "ext":
         kids = []
@@ -270,8 +281,11 @@ def run(ctx):
         plain, exp0 = msg_tree(m, Freedom(rng, on=False))
         lib = C.msg_from_json(m).pack(M.PackingOptions())
         if m["op"]["k"] != "unbind" and ber.encode(plain) != lib:
-            violations.append({"key": None, "what": "library bytes differ from the independent RFC 4511 encoder (no freedoms used)", "msg": m,
-                               "lib": lib.hex(), "rfc": ber.encode(plain).hex()})
+            # not a matter for this property (C03 judges the library's encoder): the independent encoding is then one more conforming peer
+            hist["library-encoding-differs-from-independent-encoder"] += 1
+            v = check(m, ber.encode(plain), exp0)
+            if v:
+                violations.append(v)
         for _ in range(ctx.scale(1, 2)):
             fr = Freedom(rng)
             tree, exp = msg_tree(m, fr)
@@ -288,6 +302,14 @@ def run(ctx):
                 reqs.append({"op": "dec", "hex": data.hex() + "3003"})
             if len(samples) < 2 and fr.used:
                 samples.append({"msg": m, "hex": data.hex()[:400], "freedoms": dict(fr.used)})
+        if rng.random() < 0.8:
+            fr = Freedom(rng, beyond=True)
+            tree, exp = msg_tree(m, fr)
+            if fr.used.get("beyond-property-extra"):
+                data = ber.encode(tree)
+                total_used.update({"beyond-property-extra": 1})
+                if len(data) < 3000:
+                    reqs.append({"op": "dec", "hex": data.hex()})
     # captured payloads of real servers (Active Directory) shipped with the repository's tests
     for path in sorted(glob.glob(os.path.join(REPO, "tests", "data", "*"))):
         try:
